@@ -64,6 +64,7 @@ type funcVC struct {
 	localSorts map[string]string
 	callCount map[string]int
 	siteCount map[string]int
+	matchedSites map[*clause]bool
 	opaqueModule []string
 	stack []*ssa.Function
 	retResults [][]string
@@ -220,6 +221,15 @@ func (vc *funcVC) run() (err error) {
 				vc.addObl(&obligation{Name: fmt.Sprintf("ensures/%s@ret%d", cl.Label, i+1), Kind: "ensures", Label: cl.Label,
 					Goal: and(r.cond, not(f)), Pos: fmt.Sprintf("%s:%d", relPath(cl.File), cl.Line), Clause: cl.Src + "   [at the return in " + r.pos + "]", Props: propsOfLabel(cl.Label, vc.props),
 					Inputs: vc.inputTerms(), Splits: fr.joinSplits(r.block)})
+			}
+		}
+	}
+	// a call-site clause that matched no call would silently check nothing
+	if vc.ct != nil {
+		for _, cl := range vc.ct.clausesFor(vc.layer) {
+			if cl.Kind == "callsite" && !vc.matchedSites[cl] {
+				vc.addObl(&obligation{Name: fmt.Sprintf("callsite/%s/unmatched", cl.Label), Kind: "ensures", Label: cl.Label, Goal: "true",
+					Pos: fmt.Sprintf("%s:%d", relPath(cl.File), cl.Line), Clause: fmt.Sprintf("no call %s#%d in this function", cl.Target, cl.Loop), Props: propsOfLabel(cl.Label, vc.props)})
 			}
 		}
 	}
